@@ -863,6 +863,26 @@ pub fn c13(tier: &str, seed: u64, ops: Option<&[String]>) -> Report {
                 }
             }
         }
+        // the known-protocol entry points handed a FOREIGN protocol must refuse before reading anything
+        {
+            let header = v5::Header::new_with(e[0], (e.len() - hl) as u32).unwrap();
+            for foreign in [Protocol::V311, Protocol::V310] {
+                rep.cases += 1;
+                let mut rest: &[u8] = &e[hl + 7..];
+                let before = rest.len();
+                let r = futures_lite::future::block_on(v5::Connect::decode_with_protocol(&mut rest, header, foreign));
+                if !matches!(&r, Err(v5::ErrorV5::Common(Error::UnexpectedProtocol(p))) if *p == foreign) || rest.len() != before {
+                    rep.fail("foreign-protocol-entry", format!("cwp v5 {} {} {}", if foreign == Protocol::V311 { 4 } else { 3 }, e.len() - hl, hex_or_dash(&e[hl + 7..])), format!("v5::Connect::decode_with_protocol given {:?} returned {:?} after consuming {} bytes", foreign, r.map(|c| crate::v5text::show(&v5::Packet::Connect(c))), before - rest.len()));
+                }
+            }
+            rep.cases += 1;
+            let mut rest: &[u8] = &e[hl + 7..];
+            let before = rest.len();
+            let r = futures_lite::future::block_on(v3::Connect::decode_with_protocol(&mut rest, Protocol::V500));
+            if r != Err(Error::UnexpectedProtocol(Protocol::V500)) || rest.len() != before {
+                rep.fail("foreign-protocol-entry", format!("cwp v3 5 {}", hex_or_dash(&e[hl + 7..])), format!("v3::Connect::decode_with_protocol given V500 returned {:?} after consuming {} bytes", r.map(|c| crate::v3text::show(&v3::Packet::Connect(c))), before - rest.len()));
+            }
+        }
         // continue natively on the rest
         let mut rest: &[u8] = &e[hl + 7..];
         let header = v5::Header::new_with(e[0], (e.len() - hl) as u32).unwrap();
